@@ -250,6 +250,12 @@ var partialKinds = func() []string {
 }()
 
 func opOfKind(t *rapid.T, k string) ops.Op {
+	if k == "swap" {
+		return genSwap(t)
+	}
+	if isTyped(k) {
+		return typedOp(t, cfg.OpOf(t, typedBase(k)))
+	}
 	if ops.IsC01(k) {
 		return cfg.C01Op(t, k)
 	}
@@ -275,6 +281,7 @@ func genForeignCase(t *rapid.T) Case {
 	if rapid.IntRange(0, 3).Draw(t, "general-tail") == 0 {
 		c.Ops = append(c.Ops, cfg.History(t, 1, 8)...)
 	}
+	c.Ops = widen(t, c.Ops)
 	return c
 }
 
